@@ -7,6 +7,7 @@ import (
 	"bytes"
 	"context"
 	"fmt"
+	"strings"
 
 	"github.com/paulmach/osm"
 )
@@ -208,6 +209,78 @@ func oracleC03ScanEqualsDecode(a osm.OSM, b osm.OSM, asChange bool) {
 	var got []string
 	for s.Scan() {
 		got = append(got, text(s.Object()))
+	}
+	vAssert(s.Err() == nil)
+	vAssert(len(got) == len(want))
+	for i := range want {
+		if i < len(got) {
+			vAssert(got[i] == want[i])
+		}
+	}
+}
+
+// C03, every element kind: a hand-written document with a node, a way, a
+// relation, a changeset, two notes and a user - ids chosen freely, zero
+// included - is scanned into as many objects, of the same kinds and ids in
+// document order, as decoding the whole document yields.
+//
+//@ func oracleC03ScanAllKinds
+//@   props C03
+//@   oracle
+func oracleC03ScanAllKinds(idSel int, zero int) {
+	id := func(k int) int {
+		if (zero>>uint(k))&1 == 1 {
+			return 0
+		}
+		if idSel < 0 {
+			return -(idSel+1)%1000 + k + 1
+		}
+		return idSel%1000 + k + 1
+	}
+	doc := fmt.Sprintf(`<osm version="0.6"><node id="%d" lat="1" lon="2"/><way id="%d"><nd ref="1"/></way><relation id="%d"/>`+
+		`<changeset id="%d" open="false"/><note lat="1" lon="2"><id>%d</id><status>open</status></note><note lat="3" lon="4"><status>closed</status></note>`+
+		`<user id="%d" display_name="u"/></osm>`, id(0), id(1), id(2), id(3), id(4), id(5))
+	var whole osm.OSM
+	vAssert(xml.Unmarshal([]byte(doc), &whole) == nil)
+	want := []string{}
+	for _, x := range whole.Nodes {
+		want = append(want, fmt.Sprintf("node/%d", x.ID))
+	}
+	for _, x := range whole.Ways {
+		want = append(want, fmt.Sprintf("way/%d", x.ID))
+	}
+	for _, x := range whole.Relations {
+		want = append(want, fmt.Sprintf("relation/%d", x.ID))
+	}
+	for _, x := range whole.Changesets {
+		want = append(want, fmt.Sprintf("changeset/%d", x.ID))
+	}
+	for _, x := range whole.Notes {
+		want = append(want, fmt.Sprintf("note/%d", x.ID))
+	}
+	for _, x := range whole.Users {
+		want = append(want, fmt.Sprintf("user/%d", x.ID))
+	}
+	vAssert(len(want) == 7)
+	s := New(context.Background(), strings.NewReader(doc))
+	var got []string
+	for s.Scan() {
+		switch x := s.Object().(type) {
+		case *osm.Node:
+			got = append(got, fmt.Sprintf("node/%d", x.ID))
+		case *osm.Way:
+			got = append(got, fmt.Sprintf("way/%d", x.ID))
+		case *osm.Relation:
+			got = append(got, fmt.Sprintf("relation/%d", x.ID))
+		case *osm.Changeset:
+			got = append(got, fmt.Sprintf("changeset/%d", x.ID))
+		case *osm.Note:
+			got = append(got, fmt.Sprintf("note/%d", x.ID))
+		case *osm.User:
+			got = append(got, fmt.Sprintf("user/%d", x.ID))
+		default:
+			got = append(got, "?")
+		}
 	}
 	vAssert(s.Err() == nil)
 	vAssert(len(got) == len(want))
